@@ -384,7 +384,7 @@ def _increment_shape(rep, m):
         rep.instance(rid, 2, {"transfer_function_cases": 512, "carry_width": cw})
 
 
-def rule_helpers(rep, m):
+def rule_helpers(rep, m, rid="C14.D3"):
     """D3, decided by interpreting the helper's IR over bit expressions
     (av/affine.py): the counter / the nonce bytes are symbols, the length is a
     constant per case, and the 16 stored bytes are compared with the documented
@@ -393,7 +393,6 @@ def rule_helpers(rep, m):
     from .affine import Machine, Unsupported, const_bits
     from .sponge import cbytes, sym_bytes
     from . import affine
-    rid = "C14.D3"
     rep.rule(rid, "set_counter / set_nonce byte layout")
     f = m.funcs.get("ascon_aead_set_counter")
     if f is None or f.decl:
